@@ -371,8 +371,14 @@ static void c13_encoder(rng_t *r,const drvargs_t *a,long id){
         }
       }
     }
+    if((id/3)&1){ /* either order of the two clears is in use (vorbisfile itself clears the dsp state first) */
+      if(dsp) vorbis_dsp_clear(&vd);
+      if(blk) vorbis_block_clear(&vb);
+      res_count("encoder_cleared_dsp_before_block",1);
+    } else {
     if(blk) vorbis_block_clear(&vb);
     if(dsp) vorbis_dsp_clear(&vd);
+    }
     vorbis_comment_clear(&vc); vorbis_info_clear(&vi);
     vorbis_block_clear(&vb); vorbis_dsp_clear(&vd); vorbis_comment_clear(&vc); vorbis_info_clear(&vi);   /* repeatable */
     char s2[64]; snprintf(s2,sizeof s2,"%s|%s|ch%s",scn,managed?"managed":"vbr",ch==1?"1":ch==2?"2":ch==6?"6":"other");
